@@ -325,6 +325,61 @@ def state_and_sizes_bits(ctx):
     common_input_helpers(ctx, R2)
 
 
+def _closure_ret(lib, clo, binds):
+    """single return expression of a closure with parameters bound (1 = the closure value itself), captures resolved"""
+    import vsplit
+    from sym import subst
+    g = lib.fns.get(clo[1])
+    if g is None or g.loops():
+        return None
+    rr = [q for q in explore(g, max_visits=1) if q.end == 'return']
+    if len(rr) != 1:
+        return None
+    m = dict(binds)
+    m[1] = clo
+    return vsplit.simp(subst(rr[0].ret(), m)), rr[0], g
+
+
+def pack_size_find_form(lib, f, rv):
+    """(1..8).find(|&k| n < 1 << (8 * k)).unwrap_or(8)  ->  {k: table row is right}"""
+    if not (is_call(rv, 'Option::<T>::unwrap_or') and is_call(rv[2][0], 'Iterator::find')):
+        return None
+    dflt = const_eval(rv[2][1])
+    fnd = rv[2][0]
+    rng = [x for x in walk(fnd[2][0]) if x[0] == 'agg' and 'ops::Range' in x[1]]
+    clo = [x for x in fnd[2] if x[0] == 'closure'] or [x for a in fnd[2] for x in walk(a) if x[0] == 'closure']
+    if not rng or not clo or dflt is None:
+        return None
+    fd = dict(rng[0][2])
+    lo, hi = const_eval(fd.get('start', ('?',))), const_eval(fd.get('end', ('?',)))
+    if lo is None or hi is None:
+        return None
+    if rng[0][1].endswith('RangeInclusive'):
+        hi += 1
+    out = {}
+    n_par = ('param', f.local_name(1), 1)
+    thr = {}
+    for k in range(lo, hi):
+        r = _closure_ret(lib, clo[0], {2: ('const', k)})
+        if r is None:
+            return None
+        e = r[0]
+        while e[0] == 'cast':
+            e = e[1]
+        if not (e[0] == 'bin' and e[1] in ('Lt', 'Le') and const_eval(e[3]) is not None and any(x == n_par for x in walk(e[2]))):
+            return None
+        thr[k] = const_eval(e[3]) + (1 if e[1] == 'Le' else 0)        # n < thr[k]
+    # find returns the FIRST k in lo..hi with n < thr[k]; default otherwise
+    for k in range(1, 9):
+        want_hi = (1 << (8 * k)) if k < 8 else None
+        if k in thr:
+            prev_ok = all(thr[j] <= (1 << (8 * j)) for j in thr if j < k)
+            out[k] = thr[k] == want_hi and prev_ok and lo == 1
+        elif k == dflt:
+            out[k] = k == 8 and sorted(thr) == list(range(1, 8))
+    return out
+
+
 def packing(ctx):
     R = ctx.rule('R09.4', 'integer packing: little-endian, pack_size(n) = least k with n < 2^(8k), unpack mirrors', floor=14)
     lib = ctx.lib
@@ -338,6 +393,12 @@ def packing(ctx):
                 continue
             rv = p.ret()
             if rv[0] != 'const':
+                ks = pack_size_find_form(lib, f, rv)
+                if ks is not None:
+                    for k_, ok_ in ks.items():
+                        seen.add(k_)
+                        ctx.check(R, ok_, 'pack_size:%d' % k_, 'pack_size (search form) does not return %d exactly for the values that need %d bytes' % (k_, k_), fn=f)
+                    continue
                 ctx.undecided(R, 'pack_size:shape', 'pack_size returns %s' % fmt(rv)[:60], fn=f)
                 continue
             k = rv[1]
@@ -405,6 +466,30 @@ def packing(ctx):
                     if f.callee_decl(t) == SM.IO_WRITE_ALL:
                         a = args[1]
                         wr = is_call(a, 'Index<I> for [T; N]>::index') and a[2][1][0] == 'agg' and a[2][1][1].endswith('RangeTo') and any(x[0] == 'param' for x in walk(dict(a[2][1][2])['end']))
+        if not step:
+            # buf[..nbytes].iter_mut().enumerate().for_each(|(i, b)| *b = (n >> (8 * i)) as u8)
+            for p in explore(f, max_visits=1, havoc=True):
+                for (k, bid, callee, args, t) in path_calls(p, expand=False):
+                    if isinstance(callee, str) and callee.endswith('::for_each') and len(args) == 2 and args[1][0] == 'closure':
+                        src_ok = any(is_call(x, '::iter_mut') for x in walk(args[0])) and any(is_call(x, 'Iterator::enumerate') for x in walk(args[0])) and \
+                            any(x[0] == 'agg' and x[1].endswith('RangeTo') and any(y[0] == 'param' for y in walk(dict(x[2])['end'])) for x in walk(args[0])) and \
+                            not any(is_call(x, 'Iterator::rev') for x in walk(args[0]))
+                        g = lib.fns.get(args[1][1])
+                        if g is None or not src_ok:
+                            continue
+                        for q in explore(g, max_visits=1):
+                            if q.end != 'return':
+                                continue
+                            import vsplit
+                            from sym import subst
+                            for (kk, ii, loc, st) in q.stores():
+                                if (loc[0] == 2 and '1' in loc) or (len(loc) == 1 and g.local_ty(loc[0]).endswith('mut u8')):
+                                    v = vsplit.simp(subst(q.sym.rvalue_at(st['rv'], (kk, ii)), {1: args[1]}))
+                                    step = v[0] == 'cast' and v[2] == 'u8' and v[1][0] == 'bin' and v[1][1] == 'Shr' and \
+                                        any(y == ('param', f.local_name(2), 2) for y in walk(v[1][2])) and \
+                                        any(y[0] == 'bin' and y[1] == 'Mul' and ('const', 8) in (y[2], y[3]) and any(z[0] == 'field' and z[2] == '0' and z[1][0] == 'param' for z in walk(y)) for y in walk(v[1][3]))
+                if step:
+                    break
         ctx.check(R, step, 'pack_uint_in:little-endian', 'byte i of a packed integer must be bits 8i..8i+7 of the value (store n as u8, then n >>= 8, i counting up from 0)', fn=f)
         ctx.check(R, wr, 'pack_uint_in:width', 'exactly the first nbytes bytes of the buffer must be written', fn=f)
     f = lib.fn('bytes::unpack_uint')
@@ -426,6 +511,26 @@ def packing(ctx):
                     byte_is_item = any(x[0] == 'field' and x[2] == '1' and any(is_call(y, '::next') for y in walk(x)) for x in walk(sh[2]))
                     pos_is_index = any(x[0] == 'field' and x[2] == '0' and any(is_call(y, '::next') for y in walk(x)) for x in walk(sh[3]))
                     step = ok_src and ok_sh and byte_is_item and pos_is_index
+        if not step:
+            # slice[..nbytes].iter().enumerate().fold(0, |n, (i, &b)| n | ((b as u64) << (8 * i)))
+            for p in explore(f, max_visits=1, havoc=True):
+                if p.end != 'return':
+                    continue
+                rv = p.ret()
+                if is_call(rv, '::fold') and len(rv[2]) == 3 and rv[2][2][0] == 'closure' and const_eval(rv[2][1]) == 0:
+                    src = rv[2][0]
+                    ok_src = any(is_call(x, 'Iterator::enumerate') for x in walk(src)) and not any(is_call(x, 'Iterator::rev') for x in walk(src)) and \
+                        any(is_call(x, 'Index<I> for [T]>::index') and x[2][1][0] == 'agg' and x[2][1][1].endswith('RangeTo') for x in walk(src))
+                    r = _closure_ret(lib, rv[2][2], {})
+                    if r is None or not ok_src:
+                        continue
+                    v = r[0]
+                    if v[0] == 'bin' and v[1] in ('BitOr', 'Add', 'BitXor') and v[2][0] == 'param' and v[2][2] == 2:
+                        sh = v[3]
+                        ok_sh = sh[0] == 'bin' and sh[1] == 'Shl' and sh[2][0] == 'cast' and sh[2][2] == 'u64' and any(x[0] == 'bin' and x[1] == 'Mul' and ('const', 8) in (x[2], x[3]) for x in walk(sh[3]))
+                        byte_is_item = any(x[0] == 'field' and x[2] == '1' and x[1][0] == 'param' and x[1][2] == 3 for x in walk(sh[2]))
+                        pos_is_index = any(x[0] == 'field' and x[2] == '0' and x[1][0] == 'param' and x[1][2] == 3 for x in walk(sh[3]))
+                        step = ok_sh and byte_is_item and pos_is_index
         ctx.check(R, step, 'unpack_uint:little-endian', 'unpacking must add byte i shifted left by 8i over the first nbytes bytes', fn=f)
     f = lib.fn('bytes::pack_uint')
     if f is not None:
